@@ -149,6 +149,14 @@ class SymEnv(BaseEnv):
         """fork on an oracle condition (use sparingly)"""
         return bool(cond)
 
+    def eq(self, a, b):
+        """equality as a condition (tolerant in the float/exact replays)"""
+        return self.num(a) == self.num(b)
+
+    def le(self, a, b):
+        """a <= b as a condition (tolerant in the float/exact replays)"""
+        return self.num(a) <= self.num(b)
+
     def concrete(self, x):
         return isinstance(x, (bool, _np.bool_)) or (isinstance(x, SR) and x.is_conc)
 
@@ -203,6 +211,14 @@ class ExactEnv(SymEnv):
     def assume(self, cond, text=None):
         if not bool(cond):
             raise core.ReplayReject(text or "assumption")
+
+    def eq(self, a, b):
+        a, b = float(self.num(a)), float(self.num(b))
+        return abs(a - b) <= 1e-9 * (1 + abs(a) + abs(b))
+
+    def le(self, a, b):
+        a, b = float(self.num(a)), float(self.num(b))
+        return a <= b + 1e-9 * (1 + abs(a) + abs(b))
 
     def _rec(self, name, ok):
         self.checked += 1
@@ -381,6 +397,14 @@ class RealEnv(BaseEnv):
 
     def is_true(self, cond):
         return bool(cond)
+
+    def eq(self, a, b):
+        a, b = self.num(a), self.num(b)
+        return abs(a - b) <= self._scale(a, b)
+
+    def le(self, a, b):
+        a, b = self.num(a), self.num(b)
+        return a <= b + self._scale(a, b)
 
     def concrete(self, x):
         return True
